@@ -15,7 +15,10 @@ Inductive tail_kind :=
 | TKWrite            (* storage.write_file / write_file_cas / write_json / makedirs *)
 | TKList             (* storage.list_files *)
 | TKRaise            (* a `raise` statement *)
-| TKOther.           (* any other storage-backend call, or file I/O that bypasses the backend *)
+| TKOther            (* any other storage-backend call, or file I/O that bypasses the backend *)
+| TKCompute.         (* code that touches neither storage nor the lock but can raise (int(), next(), json.loads, d[k], arithmetic,
+                        unpacking, a method of a local value ...); emitted only where no `try` swallows Exception: the deleting arm
+                        of Transaction.commit does not ask why something raised.  Not observable at the storage interface. *)
 
 (* the tail as a regular expression over calls, in program order.  `guarded` = an Exception raised by the call is caught and
    swallowed by a `try` that lies between the call and the handlers of Transaction.commit *)
